@@ -176,7 +176,7 @@ def worker(inst, tier):
     fl2[si] = jx.SA(cl, fl[si].dtype)
     oa, ob_ = tr_run.run(it, fl), tr_run.run(it, fl2)
     v, m, s, triv = cg.check_eq(alg, oa, ob_)
-    o = Ob("run(step) == run(clamp(step)) for every int step", v, s, inst, trivial=triv, key="run-step-clip",
+    o = Ob("run(step) == run(clamp(step)) for every int step", v, s, inst, trivial=triv, key="run-step-clip", optional=(tier == "thorough" and inst.get("kind") == "three"),
            what="run from an out-of-range step differs from run from the clipped step (index wraps instead of clipping)")
     if v == "sat":
         args = cg.model_inputs(m, tr_run, fl)
